@@ -7,7 +7,8 @@ gvars == <<vars, phase, suf>>
 GInit == Init /\ phase = "reach" /\ suf = 0
 \* a scenario step that matters: skip redundant SetBackend chains (SetBackend right after SetBackend)
 \* scenarios follow the grammar ( [SetBackend] Tick Round | ProxyFailure | Round )*
-Useful == /\ (act = "Tick" => act' \in {"Round", "SlowBegin"})
+Useful == /\ (act = "Tick" => act' \in {"Round", "SlowBegin", "RoundCut"})
+          /\ (act' = "RoundCut" => act = "Tick")
           /\ (act = "SetBackend" => act' = "Tick")
           /\ (act' = "Round" /\ act # "Tick" => wait > 0 /\ act # "Round")
 GNext == \/ phase = "reach" /\ Len(scn) < ReachLen /\ Next /\ Useful /\ UNCHANGED <<phase, suf>>
